@@ -158,3 +158,26 @@ def repeated_calls_depend_only_on_the_current_parameters(h, cls):
     h.is_gradient("cost_gradient first at a new point", lambda q: -_reference(h, cls, y, s, model(q)), t, g)
     h.eq("value at that point", L(t), _reference(h, cls, y, s, model(t)))
     h.eq("caller's array holds what the caller wrote", t, np.array([new[0], new[1]], dtype=dt))
+
+
+@unit("C05", quick=[dict(cls=c, layout=l) for c in CLS for l in ("column", "row", "nested")], cost=2)
+def data_layouts_give_the_same_density(h, cls, layout):
+    """the data vector handed over as a column (n,1), a row (1,n) or a nested list [[...]] (all accepted by the constructor,
+    which squeezes them): the value -- normalisation included -- and the gradient are those of the same data given as a plain
+    vector"""
+    import inference.likelihoods as lk
+    C = {"gauss": lk.GaussianLikelihood, "cauchy": lk.CauchyLikelihood, "logistic": lk.LogisticLikelihood}[cls]
+    h.patch(lk, logaddexp=funcs.logaddexp)
+    n, p = 3, 2
+    y = h.real("y", n)
+    s = h.real("s", n, pos=True)
+    th = h.real("t", p)
+    A = h.real("A", (n, p))
+    dt = object if h.sym else float
+    shaped = {"column": lambda v: np.array(v, dtype=dt).reshape(n, 1), "row": lambda v: np.array(v, dtype=dt).reshape(1, n),
+              "nested": lambda v: [list(v)]}[layout]
+    h.allow(ValueError)
+    L = C(shaped(y), shaped(s), lambda t: A @ t, lambda t: A)
+    ref = _reference(h, cls, y, s, A @ th)
+    h.eq(f"value with the data given as a {layout} == sum of log densities", L(th), ref)
+    h.is_gradient("gradient", lambda t: _reference(h, cls, y, s, A @ t), th, L.gradient(th))
